@@ -1,0 +1,75 @@
+// Copyright © 2024 Attestant Limited.
+// Licensed under the Apache License, Version 2.0 (the "License");
+// you may not use this file except in compliance with the License.
+// You may obtain a copy of the License at
+//
+//     http://www.apache.org/licenses/LICENSE-2.0
+//
+// Unless required by applicable law or agreed to in writing, software
+// distributed under the License is distributed on an "AS IS" BASIS,
+// WITHOUT WARRANTIES OR CONDITIONS OF ANY KIND, either express or implied.
+// See the License for the specific language governing permissions and
+// limitations under the License.
+
+//go:build verif
+
+package standard
+
+import (
+	"context"
+	"time"
+
+	"github.com/attestantio/go-eth2-client/spec/phase0"
+	"github.com/attestantio/vouch/services/accountmanager"
+	"github.com/attestantio/vouch/services/attestationaggregator"
+	"github.com/attestantio/vouch/services/attester"
+	"github.com/attestantio/vouch/services/beaconcommitteesubscriber"
+	"github.com/attestantio/vouch/services/chaintime"
+	"github.com/attestantio/vouch/services/scheduler"
+	"github.com/rs/zerolog"
+	zerologger "github.com/rs/zerolog/log"
+	e2wtypes "github.com/wealdtech/go-eth2-wallet-types/v2"
+)
+
+// NewForVerifC14 builds a controller with only the collaborators that the beacon committee
+// subscription and attestation aggregation paths use: no tickers, no event handlers, no start-up
+// duties.  Verification harness only (build tag verif).
+func NewForVerifC14(logLevel zerolog.Level,
+	chainTimeService chaintime.Service,
+	schedulerService scheduler.Service,
+	attesterService attester.Service,
+	validatingAccountsProvider accountmanager.ValidatingAccountsProvider,
+	attestationAggregator attestationaggregator.Service,
+	beaconCommitteeSubscriber beaconcommitteesubscriber.Service,
+	attestationAggregationDelay time.Duration,
+) *Service {
+	return &Service{
+		log:                         zerologger.With().Str("service", "controller").Str("impl", "standard").Logger().Level(logLevel),
+		chainTimeService:            chainTimeService,
+		scheduler:                   schedulerService,
+		attester:                    attesterService,
+		validatingAccountsProvider:  validatingAccountsProvider,
+		attestationAggregator:       attestationAggregator,
+		beaconCommitteeSubscriber:   beaconCommitteeSubscriber,
+		attestationAggregationDelay: attestationAggregationDelay,
+		subscriptionInfos:           make(map[phase0.Epoch]map[phase0.Slot]map[phase0.CommitteeIndex]*beaconcommitteesubscriber.Subscription),
+		pendingAttestations:         make(map[phase0.Slot]bool),
+	}
+}
+
+// SubscribeToBeaconCommitteesC14 exposes subscribeToBeaconCommittees.
+func (s *Service) SubscribeToBeaconCommitteesC14(ctx context.Context,
+	epoch phase0.Epoch,
+	accounts map[phase0.ValidatorIndex]e2wtypes.Account,
+) {
+	s.subscribeToBeaconCommittees(ctx, epoch, accounts)
+}
+
+// SubscriptionInfoC14 returns the subscription information stored for an epoch.
+func (s *Service) SubscriptionInfoC14(epoch phase0.Epoch) (map[phase0.Slot]map[phase0.CommitteeIndex]*beaconcommitteesubscriber.Subscription, bool) {
+	s.subscriptionInfosMutex.Lock()
+	defer s.subscriptionInfosMutex.Unlock()
+	info, exists := s.subscriptionInfos[epoch]
+
+	return info, exists
+}
